@@ -1578,9 +1578,9 @@ struct Exec {
             std::vector<std::string> texts;
             if (e.per_method)
                 for (auto& m : mv)
-                    texts.push_back(ops.gen_offsets(m.slot));
+                    texts.push_back(ops.gen_offsets(m.slot, e.fresh_gen != 0));
             else
-                texts.push_back(ops.gen_offsets(-1));
+                texts.push_back(ops.gen_offsets(-1, e.fresh_gen != 0));
             std::set<int> seen;
             for (auto& text : texts) {
                 std::vector<EmittedOffsets> eo;
